@@ -71,6 +71,10 @@ type Exec struct {
 	publishSeen          bool
 	privateRefs          []privateRef
 	curArgs              []*Val
+	rootVars             map[string]*Val
+	rootLets             map[string]*Val
+	rootEntry            *State
+	hypTag               map[int][2]string // hypothesis -> (callee contract, postcondition label) it came from
 	rangeOf              map[*ssa.Range]types.Type
 	distinct             map[[2]int]bool
 	freshSet             map[int]bool
